@@ -158,7 +158,7 @@ func qInv(w *qWorld) bool {
 
 var qLeaseMenu = []string{"L0", "L1", "zz", "", " L0 "}
 
-// verif:harness props=C04,C02 tier=quick weight=40
+// verif:harness props=C04,C02 tier=quick weight=40 tonly=C04
 // verif:bounds SQLiteStore.Ack/Nack/Extend/MarkDead over the SQL model: N=2 rows (thorough 3) in any state with arbitrary timestamps; presented lease id from {current of each row, unknown, blank, blank-padded}; arbitrary delay/extension; delivered-retention on/off
 func VerifC04SQLLeaseOps() {
 	n := 2
@@ -215,7 +215,7 @@ func VerifC04SQLLeaseOps() {
 	vrt.Assert("C02.sql.inv.lease-single", qInv(w))
 }
 
-// verif:harness props=C04,C03 tprops=C02 tier=quick weight=60
+// verif:harness props=C04,C03 tier=quick weight=60 tonly=C04
 // verif:bounds SQLiteStore.AckBatch/NackBatch/MarkDeadBatch over the SQL model: N=2 rows (thorough 3); batch of 2 lease ids with repetition from {current ids, unknown, blank, padded}; arbitrary clock and delay
 func VerifC04SQLLeaseBatch() {
 	n, k := 2, 2
@@ -261,7 +261,7 @@ func VerifC04SQLLeaseBatch() {
 	vrt.Assert("C02.sql.inv.lease-batch", qInv(w))
 }
 
-// verif:harness props=C14 tprops=C02 tier=quick weight=40
+// verif:harness props=C14 tier=quick weight=40
 // verif:bounds SQLiteStore cancel/requeue/resume by id, DLQ requeue/delete over the SQL model: N=2 rows in any state; id list of 2 entries (thorough 3) with repetition from {each id, padded id, empty, absent id}
 func VerifC14SQLManageIDs() {
 	n, k := 2, 2
